@@ -100,7 +100,7 @@ func hostileStrings(cur string) []interface{} {
 }
 
 // hostiles enumerates the hostile variants of one valid transaction (deterministic order).
-func hostiles(t *harness.TxSpec) []hostile {
+func hostiles(t *harness.TxSpec, w *harness.World) []hostile {
 	var out []hostile
 	// the valid transaction itself: what it stores may be what a LATER block hook trips over (every accepted
 	// input is followed by the scenario's remaining blocks, see c18Exec)
@@ -232,6 +232,38 @@ func hostiles(t *harness.TxSpec) []hostile {
 				sign(fmt.Sprintf("%s#%d=%s", pname(p), i, as), b, t.Type)
 			}
 		}
+		// ANOTHER PARTY IN A SIGNER'S ROLE, correctly signed by that party: every address leaf that names one of
+		// the signers is pointed at another account whose key the world knows (a funded user, a validator, a stake
+		// account, an unfunded outsider) and that account signs in its place - a well-formed, authentic
+		// transaction of somebody who has no business sending it. (Added after a seeded change - the report of a
+		// non-witness indexing a vote list with -1 - escaped the menu: malformed addresses and unsigned roles only.)
+		if t.SignFn == nil && w != nil && len(w.Users) > 0 && len(w.Vals) > 0 {
+			others := []struct {
+				class string
+				a     *harness.Account
+			}{{"user", w.Users[len(w.Users)-1]}, {"validator", w.Vals[len(w.Vals)-1].Val}, {"stake-account", w.Vals[len(w.Vals)-1].Stake}, {"outsider", harness.NewAccount("c18-outsider")}}
+			for _, p := range leaves {
+				cur, ok := get(v, p).(string)
+				if !ok {
+					continue
+				}
+				for si, sg := range t.Signers {
+					if !strings.EqualFold(cur, sg.Addr.String()) {
+						continue
+					}
+					for _, o := range others {
+						if strings.EqualFold(o.a.Addr.String(), cur) {
+							continue
+						}
+						c := *t
+						c.Data = setAt(p, o.a.Addr.String())
+						c.Signers = append([]*harness.Account(nil), t.Signers...)
+						c.Signers[si] = o.a
+						out = append(out, hostile{fmt.Sprintf("%s=another-party-signing-itself:%s", pname(p), o.class), c.Bytes()})
+					}
+				}
+			}
+		}
 		for _, p := range nodes {
 			for i, a := range []interface{}{nil, []interface{}{}, map[string]interface{}{}, "x", json.Number("1")} {
 				sign(fmt.Sprintf("%s#node%d", pname(p), i), setAt(p, a), t.Type)
@@ -319,7 +351,7 @@ func c18Exec(j c18Job) c18Res {
 	if err != nil {
 		return c18Res{Err: err.Error()}
 	}
-	hs := hostiles(h.Blocks[h.Target].Txs[0])
+	hs := hostiles(h.Blocks[h.Target].Txs[0], h.W)
 	if j.Op >= len(hs) {
 		return c18Res{Err: "operator out of range"}
 	}
@@ -443,7 +475,7 @@ func c18(args []string) int {
 			continue
 		}
 		kinds[sc.Kind] = true
-		hs := hostiles(h.Blocks[h.Target].Txs[0])
+		hs := hostiles(h.Blocks[h.Target].Txs[0], h.W)
 		perKind[sc.Kind] = len(hs)
 		for op, hv := range hs {
 			jobList = append(jobList, c18Job{Scn: sc.ID(), Op: op, Name: hv.name, Path: "check"}, c18Job{Scn: sc.ID(), Op: op, Name: hv.name, Path: "deliver"})
